@@ -31,6 +31,7 @@ type scenario struct {
 	blocks []string // names in creation order
 	parent map[string]string
 	miner  map[string]int
+	focus  int // > 0: reduced alphabet (blocks bare / with one valid confirm, one valid confirm packet per block) explored focus levels deeper
 }
 
 var scenarios = map[string]*scenario{}
@@ -63,6 +64,13 @@ func init() {
 	defScenario("n4-chain-obs", 4, "obs", "a1<g@0", "a2<a1@1", "b1<g@1")
 	// single deputy: every block is stable at once
 	defScenario("n1-chain-obs", 1, "obs", "a1<g@0", "a2<a1@0")
+	// a fork that branches off the MIDDLE of a path which becomes stable in one step (a block gets its
+	// quorum before its parent does), with the longer branch on the fork: the head has to come back and
+	// the fork has to go. Reduced alphabet, explored deeper.
+	defScenario("n3-midfork-obs", 3, "obs", "a1<g@0", "a2<a1@1", "s1<a1@2", "s2<s1@0")
+	scenarios["n3-midfork-obs"].focus = 1
+	defScenario("n3-midfork-d2", 3, "d2", "a1<g@0", "a2<a1@1", "s1<a1@2", "s2<s1@0")
+	scenarios["n3-midfork-d2"].focus = 1
 }
 
 // built holds the pre-mined tree of one scenario (per worker process).
@@ -152,6 +160,13 @@ func (b *built) alphabet() []string {
 	var evs []string
 	for _, bn := range sc.blocks {
 		evs = append(evs, "blk "+bn)
+	}
+	if sc.focus > 0 {
+		for _, bn := range sc.blocks {
+			other := (sc.miner[bn] + 1) % sc.n
+			evs = append(evs, fmt.Sprintf("blk %s +c%d", bn, other), fmt.Sprintf("cf %s c%d", bn, other))
+		}
+		return evs
 	}
 	// confirm tokens: every deputy's valid confirm, re-encodings of the miner's and of one other
 	// deputy's signature, outsider, wrong-hash; a two-signature packet with a signature and its re-encoding
@@ -371,7 +386,7 @@ func run(hist []string) core.Outcome {
 	o.Key = core.Hash(kb.String())
 	o.Tags = append(o.Tags, fmt.Sprintf("%s/s=%d/h=%d", hist[0], stable.Height(), head.Height()))
 
-	if len(evs) < maxDepth {
+	if len(evs) < maxDepth+sc.focus {
 		o.Enabled = append(o.Enabled, b.alphabet()...)
 		if len(pend) > 0 {
 			o.Enabled = append(o.Enabled, "task")
@@ -409,8 +424,8 @@ func main() {
 	}
 	core.ServeIfWorker(safe)
 	r := core.NewResult(prop, "model_checking")
-	r.Rule = "BFS over delivery histories (blocks of a pre-mined tree, bare or carrying confirms; confirm packets from the token set valid/duplicate/re-encoded/outsider/wrong-hash/two-signature; gated engine tasks) on a real node, 6 scenarios (1,3,4 deputies; chain, siblings, fork; observer and deputy node); state = (stable, head, stored blocks with sorted confirm lists, pending tasks); distinct outcome = (scenario, stable height, head height, signer count)"
+	r.Rule = "BFS over delivery histories (blocks of a pre-mined tree, bare or carrying confirms; confirm packets from the token set valid/duplicate/re-encoded/outsider/wrong-hash/two-signature; gated engine tasks) on a real node, 6 scenarios (1,3,4 deputies; chain, siblings, fork; observer and deputy node) plus 2 scenarios with a reduced alphabet explored one level deeper (a fork off the middle of a path that becomes stable in one step, head on the fork); state = (stable, head, stored blocks with sorted confirm lists, pending tasks); distinct outcome = (scenario, stable height, head height, signer count)"
 	r.Assume = []string{"gated background tasks are released oldest-first (their position among message events is arbitrary)", "block tree and token set as listed in the rule; depth bound in coverage.depth_bound"}
-	core.BFS(r, core.BFSConfig{Prop: prop, Run: safe, MaxDepth: maxDepth + 1, Subprocess: true, RecycleEvery: 3000, PerRunLimit: 120e9})
+	core.BFS(r, core.BFSConfig{Prop: prop, Run: safe, MaxDepth: maxDepth + 2, Subprocess: true, RecycleEvery: 3000, PerRunLimit: 120e9})
 	core.Finish(r)
 }
